@@ -32,6 +32,14 @@ RULES = [
     ("draw_target.rs", None, "let integer_rect", "in-scope: fast path taken for a rectangle that is off the grid in one number only; the generators never produced such rectangles - they do now (caught by C02, C03 and C14)"),
     ("draw_target.rs", None, "iwidth as f32 == width", "in-scope: fast path taken for a rectangle that is off the grid in one number only; the generators never produced such rectangles - they do now (caught by C02, C03 and C14)"),
     ("draw_target.rs", (440, 545), None, "geometry: path front end (monotonic chopping of quadratics, cubic to quadratics): C08"),
+    ("draw_target.rs", None, "self.rasterizer.rasterize(&mut blitter, path.winding)", "hook: verif_coverage"),
+    ("draw_target.rs", None, "buf.truncate(len)", "hook: verif_coverage"),
+    ("draw_target.rs", (1240, 1275), "self.rasterizer.reset()", "hook: verif_coverage"),
+    ("draw_target.rs", None, "self.composite(&image, Some(&mask)", "equivalent: alpha above 1 is clamped (repair F9)"),
+    ("blitter.rs", None, "if mask != 0 && clip != 0", "equivalent: a clip coverage of 1/255 skipped - within the tolerance the statements leave for partial coverage"),
+    ("blitter.rs", None, "if x2 <= x1", "equivalent: an empty span adds no coverage"),
+    ("blitter.rs", None, "const SUPER_MASK", "geometry: sub-pixel position mask of the coverage accumulation (C01)"),
+    ("blitter.rs", None, "x1 = x1.max(0);", "in-scope: the aliased twin of repair F21 (a span that starts left of the mask); needs the same rare curve overshoot as seeded change C07-r8-1, which the full quick batch reaches only once (run 259245 of 800000) - not reached at a quarter of the budget"),
     ("blitter.rs", None, "as usize + 1]", "equivalent: one more spare byte in the coverage buffer"),
     ("blitter.rs", None, "if y % SCALE != 0", "geometry: which of the four sample rows the aliased mode uses (C01)"),
     ("blitter.rs", None, "if y < 0", "equivalent: row 0 clamps to row 0"),
